@@ -154,6 +154,7 @@ def run(repo, rep, tier):
     iparam_typed_by_name(repo, rep, operations(repo))
     from .c13 import adapter_keys_agree
     adapter_keys_agree(repo, rep, 'C04.R11', lambda op: True, 100)
+    unembedding_by_attribute_only(repo, rep)
     r1 = rep.rule('C04.R1', 'client IPARAMVALUE names = keys read by the '
                   'server-side adapter')
     r2 = rep.rule('C04.R2', 'None is omitted, everything else is sent')
@@ -960,3 +961,69 @@ def iparam_typed_by_name(repo, rep, ops):
                         'pywbem/_tupleparse.py', st.lineno,
                         'parameter names %s are converted to bool but no '
                         'operation sends a parameter of that name' % unknown)
+
+
+def unembedding_by_attribute_only(repo, rep):
+    """C04.R12: whether a value that arrives with an EmbeddedObject
+    attribute is un-embedded (parse_embeddedObject) depends on the attribute
+    alone.  parse_embeddedObject() itself handles strings, lists of strings
+    and None; a caller that adds a condition on the value (e.g.
+    isinstance(child, str)) leaves arrays of embedded instances as escaped
+    XML text - the server then sees a string array parameter where the
+    direct call passes CIMInstance objects, and output parameters come back
+    as text."""
+    from ..cfg import stmt_facts
+    r12 = rep.rule('C04.R12', 'parse_embeddedObject() is applied whenever the '
+                   'EmbeddedObject attribute is present, whatever the value')
+    tp = repo.cls('pywbem/_tupleparse.py', 'TupleParser')
+    n = 0
+    for name, f in sorted(tp.methods.items()):
+        if name == 'parse_embeddedObject':
+            continue
+        # locals that stand for the attribute (value of attrl.get(...))
+        attr_locals = set()
+        for a in walk_no_nested(f.node):
+            if isinstance(a, ast.Assign) and len(a.targets) == 1 and \
+                    isinstance(a.targets[0], ast.Name) and \
+                    any(isinstance(x, ast.Constant) and
+                        isinstance(x.value, str) and
+                        x.value.upper() == 'EMBEDDEDOBJECT'
+                        for x in ast.walk(a.value)):
+                attr_locals.add(a.targets[0].id)
+        for st, (fs, _t) in stmt_facts(f.node).items():
+            if isinstance(st, (ast.If, ast.For, ast.While, ast.Try,
+                               ast.With)):
+                continue
+            calls = [c for c in ast.walk(st) if isinstance(c, ast.Call) and
+                     (dotted(c.func) or '').endswith(
+                         '.parse_embeddedObject') and c.args]
+            for c in calls:
+                n += 1
+                r12.sites += 1
+                r12.functions.add(f.fq)
+                val_names = {x.id for x in ast.walk(c.args[0])
+                             if isinstance(x, ast.Name)}
+                extra = []
+                for t, pol in fs:
+                    names = {x.id for x in ast.walk(t)
+                             if isinstance(x, ast.Name)}
+                    about_attr = any(
+                        isinstance(x, ast.Constant) and
+                        isinstance(x.value, str) and
+                        x.value.upper() == 'EMBEDDEDOBJECT'
+                        for x in ast.walk(t)) or names & attr_locals
+                    if names & val_names and not about_attr:
+                        extra.append((t, pol))
+                r12.ob(not extra, '%s|%s' % (name, norm(c, 50)))
+                for t, pol in extra[:1]:
+                    rep.finding(r12, f.qualname, norm(t, 70),
+                                'value-dependent-unembedding',
+                                'pywbem/_tupleparse.py', c.lineno,
+                                'the value is un-embedded only when %s is '
+                                '%s: for other values that carry the '
+                                'EmbeddedObject attribute (arrays of '
+                                'embedded objects) the escaped XML text is '
+                                'handed on as strings' % (norm(t, 50), pol))
+    if n < 3:
+        raise AnalysisError('C04.R12: only %d parse_embeddedObject() call '
+                            'sites' % n)
